@@ -63,6 +63,13 @@ theorem pass_partitions (ready : α → Bool) (l : List α) :
     | nil => rfl
     | cons t ts ih => cases h : ready t <;> simp [scanPass, h] <;> omega
 
+/-- **A pass loses and duplicates nothing** (multiset form): forwarded calls and the new wait list
+    together are a permutation of the old wait list. -/
+theorem pass_is_permutation (ready : α → Bool) (l : List α) :
+    ((scanPass ready l).1 ++ (scanPass ready l).2).Perm l := by
+  rw [scanPass_fst, scanPass_snd]
+  exact List.filter_append_perm ready l
+
 /-- Non-vacuity: five parked calls, 1, 2 and 4 ready. -/
 example : scanPass (fun i => i == 1 || i == 2 || i == 4) [0, 1, 2, 3, 4] = ([1, 2, 4], [0, 3]) := by
   decide
